@@ -3,7 +3,7 @@ import vlib
 from checks import tracker_common as tc
 MANIFEST = dict(level="model_checking", design="3 (C05)",
     technique="TLA+ specs (Tracker.tla consumes distance results as a bag; StoreConc.tla gives one bag for every schedule): one spec-expected output per call; TLC-generated behaviours replayed for shard counts 1..8 with worker steps serialised in permuted orders through hook gates",
-    text="Decided by composition inside the specification (C10: the distance result is the same bag for every shard count and schedule; the tracker spec is a function of that bag), so TLC yields a single expected record list per call. Binding: the TLC-enumerated R1 behaviours (tie-free by construction) are replayed into the real trackers for shard counts {1,2,3,5,8} (thorough: 1..8) while a scheduler thread serialises the shard workers' Distances commands in forward, reverse and seeded random order through the hook gates; every run must equal the one spec-expected output, ids literally for the simple trackers. A disagreement that already appears with one shard and free-running workers is not attributed to C05.",
+    text="Decided by composition inside the specification (C10: the distance result is the same bag for every shard count and schedule; the tracker spec is a function of that bag), so TLC yields a single expected record list per call. Binding: the TLC-enumerated R1 behaviours (tie-free by construction) are replayed into the real trackers for shard counts {1,2,3,5,8} (thorough: 1..8) while a scheduler thread serialises the shard workers' Distances commands in forward, reverse and seeded random order through the hook gates; every run must equal the one spec-expected output, ids literally for the simple trackers. A disagreement that already appears (for the same number of behaviours) with one shard and free-running workers is not attributed to C05. Further schedules: a 'slow' policy grants a worker step 2.4 s late now and then (a late partial result is still the result); full multi-scene batches of the batch trackers are replayed under seeded delays at every hook site - also under the shard lock (hook w.dist.scan) - and under a forced overlap in which every voting job starts while shard workers are inside the scan for the next scene.",
     note="R1 slot world. Worker steps are permuted at command granularity (w.cmd.start / w.cmd.end); merge commands are not gated.")
 LEVEL = MANIFEST["level"]
 RULE = ("behaviours = TLC enumeration / simulation of GenTR; each is replayed per (shard count, scheduler policy); non-trivial = "
